@@ -138,6 +138,8 @@ println("a", len(m), m[k1], k1 == k2)''' % (S, S),
     C.append(T('range_delete', '', 'm := map[int]int{1: 10, 2: 20, 3: 30}\nd := NondetRange(0, 1, 4)\nn, s := 0, 0\nfirst := true\nfor k, v := range m {\n\tif first {\n\t\tfirst = false\n\t\tif k != d {\n\t\t\tdelete(m, d)\n\t\t}\n\t}\n\tn++\n\ts += v\n}\nprintln("r", n, s, len(m))',
                lambda inp: [('(= in_0 4)', [('r', ['3', '60', '3'])], 'normal'),
                             ('(and (<= 1 in_0) (<= in_0 3))', None, 'normal')]))
+    C.append(T('map_literal_key_copy', 'type pk struct{ x, y int }\n', 'a := int(NondetInt16(0))\nb := int(NondetInt16(1))\np := pk{a, 1}\narr := [2]int{a, 2}\nm := map[pk]int{p: 1}\nn := map[[2]int]int{arr: 2}\nvar e interface{} = p\nq := map[interface{}]int{e: 3}\np.x = b\narr[0] = b\nsum := 0\nfor k := range m {\n\tsum += k.x\n}\nfor k := range n {\n\tsum += k[0] * 3\n}\nprintln("k", sum, m[pk{a, 1}], n[[2]int{a, 2}], q[pk{a, 1}], len(m))',
+               lambda inp: [('true', [('k', ['(* 4 in_0)', '1', '2', '3', '1'])], 'normal')]))
     return C
 
 
